@@ -148,8 +148,8 @@ class PusTmSecondaryHeader:
                 f"found where PUS C {PusVersion.PUS_C} was expected"
             )
         secondary_header.spacecraft_time_ref = data[current_idx] & 0x0F
-        if secondary_header.header_size > len(data):
-            raise BytesTooShortError(secondary_header.header_size, len(data))
+        if cls.MIN_LEN + timestamp_len > len(data):
+            raise BytesTooShortError(cls.MIN_LEN + timestamp_len, len(data))
         current_idx += 1
         secondary_header.service = data[current_idx]
         current_idx += 1
